@@ -302,3 +302,7 @@ RECURSIVE[fmn.name()] = (fmn, _def_fmn)
 RECURSIVE[fma.name()] = (fma, _def_fma)
 RECURSIVE[levn.name()] = (levn, _def_levn)
 RECURSIVE[leva.name()] = (leva, _def_leva)
+
+
+# the position of an occurrence (skolem function of the definition  occ(m, s) <=> exists p. 0 <= p <= |s| - |m| and s[p .. p+|m|) == m )
+opos = z3.Function("occ_pos", A, I, I, A, I, I, I)
